@@ -86,7 +86,13 @@ Inductive event :=
 | EClose
 | ENext (j : Z)
 | ETickClose (k : nat)
-| EJoinShutdown.             (* ResultHandler.finish_at_shutdown: _join_exited_workers(shutdown=True) *)      (* a supervision pass during which close() is called from the start-up hook
+| EJoinShutdown              (* ResultHandler.finish_at_shutdown: _join_exited_workers(shutdown=True) *)
+| EApplyQ (soft hard lost : option Z) (slot : option bool)
+                             (* apply_async on a pool WITH helper threads: the task is queued for the
+                                task handler (a later EFeed sends it, or fails to) *)
+| EApplyUnsendable (slot : option bool).
+                             (* apply_async on a pool without helper threads whose write to the pipe
+                                raises: the call re-raises, no job exists afterwards *)      (* a supervision pass during which close() is called from the start-up hook
                                 of the (k+1)-th worker it starts *)
 
 (* what the call returned / raised, as the harness canonicalises it *)
@@ -357,6 +363,22 @@ Definition do_apply (s : pool) (so ha lo : option Z) (slot : option bool) : pool
                    (py_or so (t_soft s)) (py_or ha (t_hard s)) lt None 0 0 0 [] 0 0 0 0 None [] [] in
     (add_job s1 x, RNone).
 
+(* apply_async with helper threads: as do_apply, and the task is queued for the task handler *)
+Definition do_apply_q (s : pool) (so ha lo : option Z) (slot : option bool) : pool * ret :=
+  match do_apply s so ha lo slot with
+  | (s', RNone) => (with_feeds s' (feeds s' ++ [(Z.of_nat (length (jobs s)), 1, false)]), RNone)
+  | r => r
+  end.
+
+(* apply_async without helper threads when the write raises: refused / blocked as usual;
+   otherwise the slot is taken and given back, the handle created and forgotten, the error
+   re-raised (ValueError in the harness): nothing is left behind *)
+Definition do_apply_unsendable (s : pool) (slot : option bool) : pool * ret :=
+  let wait := match slot with Some b => b | None => putlocks s end in
+  if negb (pstate s =? 0) then (s, RRefused)
+  else if wait && (LaxSem.value (sem s) =? 0) then (s, RBlocked)
+  else (s, RExc 11).
+
 Definition do_map (s : pool) (n cs : Z) : pool * ret :=
   if negb (pstate s =? 0) then (s, RRefused)
   else
@@ -619,7 +641,16 @@ Fixpoint feed_tasks (fuel : nat) (i : Z) (j : Z) (k : Z) (fail_at : option Z) (i
       if io then (s, k + 1, true)
       else
         let s := match cached s j with
-                 | Some x => set_job s j (fun x => fst (job_set x (Some i) PPutFailed))
+                 | Some x =>
+                   match kind x with
+                   | KApply =>
+                     (* a single-part task that was never sent: nobody will acknowledge or answer
+                        it; its slot is given back and its cache entry removed *)
+                     let s := if ready x then s else with_sem s (LaxSem.release (sem s)) in
+                     let s := set_job s j (fun x => fst (job_set x (Some i) PPutFailed)) in
+                     set_job s j j_uncache
+                   | _ => set_job s j (fun x => fst (job_set x (Some i) PPutFailed))
+                   end
                  | None => s
                  end in
         feed_tasks f (i + 1) j (k + 1) fail_at io s
@@ -738,6 +769,8 @@ Definition step (s : pool) (e : event) : pool * ret :=
   | ENext j => do_next s j
   | ETickClose k => do_tick_close s k
   | EJoinShutdown => do_join_shutdown s
+  | EApplyQ so ha lo slot => do_apply_q s so ha lo slot
+  | EApplyUnsendable slot => do_apply_unsendable s slot
   end.
 
 (* configuration of a pool: Pool.__init__ *)
@@ -825,7 +858,8 @@ Record obs := mkobs {
 
 Definition observe (s : pool) (r : ret) : obs :=
   mkobs (enc_ret r) (map enc_job (jobs s)) (map (enc_worker s) (wlist s))
-        [nprocs s; LaxSem.value (sem s); LaxSem.bound (sem s); Restart.R (rst s); pstate s; now s]
+        [nprocs s; LaxSem.value (sem s); LaxSem.bound (sem s); Restart.R (rst s); pstate s; now s;
+         Z.of_nat (length (filter incache (jobs s)))]      (* len(pool._cache) *)
         (sigs s).
 
 Definition lz_eqb := list_eqb Z.eqb.
